@@ -181,6 +181,19 @@ CHECKS = {
         note="Proof of the glue under the collision-freedom idealisation and the assumed hash_pandas_object contract; values are "
              "tokens (one representative per field kind); real-identifier clauses are bounded.",
         technique="contract on the hashed document via recording stubs of md5/json/hash_pandas_object; static determinism scan; bounded real ids"),
+    'C20': dict(
+        category='proof',
+        text="Registry: exhaustive evaluation over the finite shipped data (176 adsorbates, every name and alias in five letter-case "
+             "variants, adsorbates.json and default.db and the loaded registry): alias sets pairwise disjoint, sources equal, the real "
+             "find/__eq__ resolve each string to exactly its adsorbate and an isotherm built from the string is linked to it. Getter "
+             "contracts: the real Adsorbate getters are executed symbolically against a CoolProp contract stub that may fail at every "
+             "call: scaled backend value, unit argument on the calculated and the dictionary path, user value on failure, "
+             "CalculationError otherwise, never a silent number. CoolProp physics (rho = rhobar M, p_t <= p_sat <= p_c, monotone, "
+             "dh_vap > 0, units) is a bounded stand-in over the backend-linked fluids.",
+        design_ref='§3 C20',
+        note="Exhaustive over shipped data (finite); getter obligations modulo the AbstractState contract; thermodynamic inequalities are "
+             "properties of CoolProp and only sampled (5 temperatures quick / 25 thorough per fluid).",
+        technique="exhaustive evaluation of the real functions over the shipped data; symbolic execution of the getters with a failing-backend stub"),
 }
 
 NOT_YET = {
